@@ -508,6 +508,9 @@ def np_concatenate(interp, args, kwargs):
 @lib("numpy.sort")
 def np_sort(interp, args, kwargs):
     x = args[0]
+    ax = kwargs.get("axis")
+    if ax is not None and not isinstance(ax, NoneV) and conc(ax.z) not in (0, -1):
+        raise Unsupported("np.sort axis")
     if isinstance(x, Vec):
         return sorted_vec(interp, x, kind="ndarray")
     raise Unsupported("np.sort of a non-vector")
@@ -663,7 +666,7 @@ def _mat_getitem(interp, self: Mat, args, kwargs):
         if full(a) and isinstance(b, tuple) and b[0] == "slice":
             from .lib_py import slice_bounds
             start, count, st = slice_bounds(interp, b[1], b[2], b[3], self.cols)
-            if start == "reverse":
+            if isinstance(start, str):
                 raise Unsupported("reverse column slice")
             return MatView(self, start, st, count)
         if isinstance(a, Num) and full(b):
